@@ -65,6 +65,8 @@ func ccCoqScenario(sc ccScenario) string {
 	for _, s := range sc.Steps {
 		if s.Close {
 			st = append(st, "SClose")
+		} else if s.Now {
+			st = append(st, fmt.Sprintf("SCallNow %s %s", ccCoqTrig[s.Trig], ccCoqAct[s.Act]))
 		} else {
 			st = append(st, fmt.Sprintf("SCall %s %s", ccCoqTrig[s.Trig], ccCoqAct[s.Act]))
 		}
@@ -289,6 +291,43 @@ func ccGenTriggers() []ccGenCase {
 	return out
 }
 
+// ccGenRaces: the next call starts at the very instant the connection is failing or being torn
+// down ("the server closes the connection right after replying", a failure noticed by readloop
+// while the caller is already in send, a Close still in progress): no settling between the steps.
+func ccGenRaces() []ccGenCase {
+	var out []ccGenCase
+	kinds := []clisim.Kind{clisim.KEOF, clisim.KClosedPipe, clisim.KNetClosed, clisim.KReset, clisim.KZeroRead}
+	for _, k := range kinds {
+		for e := 0; e < 2; e++ {
+			for rep := 0; rep < 6; rep++ { // a race: several runs
+				steps := append(ccCalls(e+1), ccStep{Now: true})
+				if rep%2 == 1 {
+					steps = append(steps, ccStep{Now: true})
+				}
+				if rep >= 4 {
+					steps = append(steps, ccStep{})
+				}
+				out = append(out, ccGenCase{"race-next-call", ccScenario{Plans: ccPlanAt(0, e, ccReq{R: int(clisim.RThenFail), RK: int(k)}), Steps: steps}})
+				pl := ccPlanAt(0, e, ccReq{R: int(clisim.RThenFail), RK: int(k)})
+				pl = append(pl, ccPlan{Reqs: []ccReq{{R: int(clisim.RThenFail), RK: int(k)}}})
+				out = append(out, ccGenCase{"race-next-call", ccScenario{Plans: pl, Steps: steps}})
+			}
+		}
+	}
+	// right after an abandoned or failed call
+	for t := ccTPre; t <= ccTDial; t++ {
+		for rep := 0; rep < 2; rep++ {
+			out = append(out, ccGenCase{"race-after-cancel", ccScenario{Steps: []ccStep{{Trig: t, Act: ccACancel}, {Now: true}, {Now: true}}}})
+			out = append(out, ccGenCase{"race-after-cancel", ccScenario{Plans: ccPlanAt(0, 0, ccReq{R: int(clisim.RFail), RK: int(clisim.KEOF)}),
+				Steps: []ccStep{{Trig: t, Act: ccACancel}, {Now: true}}}})
+		}
+	}
+	for _, a := range append(ccWriteAtoms()[:4], ccReplyAtoms()[:8]...) {
+		out = append(out, ccGenCase{"race-after-failure", ccScenario{Plans: ccPlanAt(0, 0, a), Steps: []ccStep{{}, {Now: true}, {Now: true}}}})
+	}
+	return out
+}
+
 func ccGenRandom(rng *h.Rand, n int) []ccGenCase {
 	var out []ccGenCase
 	watoms, ratoms := ccWriteAtoms(), ccReplyAtoms()
@@ -326,7 +365,7 @@ func ccGenRandom(rng *h.Rand, n int) []ccGenCase {
 				}
 				sc.Steps = append(sc.Steps, ccStep{Trig: t, Act: a})
 			default:
-				sc.Steps = append(sc.Steps, ccStep{})
+				sc.Steps = append(sc.Steps, ccStep{Now: k > 0 && r.Chance(1, 4)})
 			}
 		}
 		out = append(out, ccGenCase{"random", sc})
